@@ -32,6 +32,9 @@ def verdicts(case, res):
 
 
 def run_case(case, ctx):
+    if case.get("real"):
+        PC.judge_real(case, ctx, "FactoryFunctorPool" if case["pool"] == "factory" else "FunctorPool", True, True)
+        return
     res = P.run_pool_case(case)
     labs = P.labels_for(case, res)
     ctx.label(*labs)
@@ -74,4 +77,5 @@ def strategies(tier):
     plain = PC.pool_strategy(max_calls=5, min_calls=2, max_n=8)
     quota = PC.pool_strategy(kinds=("factory",), quotas=(1, 1, 2, 3), max_calls=5, min_calls=2, max_n=8)
     n = 100000 if big else 3000
-    return [("drawn-histories", plain, n // 2), ("drawn-quota-histories", quota, n // 2)]
+    return [("drawn-histories", plain, n // 2), ("drawn-quota-histories", quota, n // 2),
+            ("real-processes-quota-histories", PC.real_strategy(quota), 300 if big else 14, {"shrink": False})]
